@@ -72,6 +72,7 @@ def d_alphabet(P, files, syms, xs=(5,), scoped=None, reads=(0, 1, 2), cats="all"
                     ops.append(("ld", i, j, s))       # load on a named lvalue
                     if cats == "all" or (cats == "some" and s == syms[0]):
                         ops.append(("lm", i, j, s))       # load on std::move(named)
+                        ops.append(("lg", i, j, s))       # symbol<T>(lib.get(), name): the public constructor
                         t = [x for x in range(P) if x not in (i, j)]
                         if t:
                             ops.append(("lt", i, j, t[0], s))   # load on a temporary copy (scratch slot t)
@@ -111,7 +112,7 @@ def d_applicable(st, op):
                 and st[op[2]] is not None and st[op[2]][0] == "L" and st[op[2]][1] is not None)
     if k == "rx":
         return True
-    if k in ("ld", "lq", "lm"):
+    if k in ("ld", "lq", "lm", "lg"):
         return op[1] < n and op[2] < n and st[op[1]] is None and st[op[2]] is not None and st[op[2]][0] == "L" and st[op[2]][1] is not None
     if k == "gt":
         return op[1] < n and op[2] < n and st[op[1]] is None and st[op[2]] is not None and st[op[2]][0] == "L"
@@ -141,7 +142,7 @@ def d_shape_step(st, op):
         lib = st[op[2]][1]
         if sym_exists(lib, op[4]):
             st[op[1]] = ("S", lib)
-    elif k in ("ld", "lq", "lm"):
+    elif k in ("ld", "lq", "lm", "lg"):
         lib = st[op[2]][1]
         if sym_exists(lib, op[3]):
             st[op[1]] = ("S", lib)
@@ -249,7 +250,8 @@ class C19(Check):
                   "not proved.")
     rule = ("env: every sequence of depth 3 (thorough: 4) over {setenv, unsetenv, get with default, get with the defaulted default, "
             "get without default} x 2 names x values/defaults {'', 'x'}, then random sequences with names and values over arbitrary "
-            "non-NUL bytes (values also empty and up to 20 000 bytes; thorough 200 000), defaults equal to / different from the "
+            "non-NUL bytes (values also empty and up to 20 000 bytes; thorough 200 000), fixed cases with values of 64 KiB-70 000 bytes "
+            "(thorough: 300 000 and 1 100 000) and names of 300 and 5000 bytes through all three overloads, defaults equal to / different from the "
             "value; dl: every applicable sequence of depth 3 (thorough: also depth 4 without the scoped/quiet/read operations) over {open a / b / missing, load existing / only-in-a / "
             "missing symbol — each on a named library object, on std::move(named), on a temporary copy and on a temporary built from the "
             "file name —, get, copy-construct, move-construct, copy-assign, move-assign (both also onto itself), swap, destroy, "
@@ -324,6 +326,16 @@ class C19(Check):
                 else:
                     seq.append(("n", hx(n)))
             yield e_case(seq), "env-rand"
+        # ---- env, sizes beyond the sampled range: values of 64 KiB and more (also '='-laden), names of 300 and 5000 bytes,
+        #      each read through all three overloads, changed, read again, unset, read again
+        for vlen in (65535, 65536, 70001) + (() if quick else (300000, 1100000)):
+            v = bytes((b or 0x3d) for b in rng.randbytes(vlen)).decode("latin-1")
+            n = "VQBIG"
+            yield e_case([("g", hx(n), hx("d")), ("s", hx(n), hx(v)), ("g", hx(n), hx("d")), ("d", hx(n)), ("n", hx(n)),
+                          ("s", hx(n), hx(v[:5])), ("n", hx(n)), ("u", hx(n)), ("g", hx(n), hx(v[:70000])), ("n", hx(n))]), "env-big"
+        for nlen in (300, 5000):
+            n = "VQ" + "".join(chr(rng.choice([0x41, 0x5f, 0x7a, 0xe4])) for _ in range(nlen))
+            yield e_case([("n", hx(n)), ("s", hx(n), hx("")), ("n", hx(n)), ("d", hx(n)), ("g", hx(n), hx("x")), ("u", hx(n)), ("d", hx(n))]), "env-big"
         # ---- env, names that cannot be variables: empty, containing '=' (never set; must behave as unset)
         for n in ["", "=", "VQA=1", "=VQA"]:
             yield e_case([("g", hx(n), hx("d")), ("n", hx(n)), ("d", hx(n))]), "env-odd-name"
@@ -347,7 +359,7 @@ class C19(Check):
                     # prefer loads/copies while a library object exists, and dropping library objects that still have dependants
                     r = rng.random()
                     if r < 0.35:
-                        o = d_pick(rng, alpha, st, ("ld", "lm", "lt", "tc", "cp", "gt", "mv", "as", "ma", "sw"))
+                        o = d_pick(rng, alpha, st, ("ld", "lm", "lg", "lt", "tc", "cp", "gt", "mv", "as", "ma", "sw"))
                     elif r < 0.55:
                         o = d_pick(rng, alpha, st, ("dr", "cl", "rx"))
                     else:
